@@ -27,11 +27,11 @@ def showHexCells (l : List Nat) : String :=
 
 def parseFx (s : String) : Fixes :=
   match s.toList.map (· == '1') with
-  | [a, b, c, d] => ⟨a, b, c, d⟩
+  | [a, b, c, d, e, f] => ⟨a, b, c, d, e, f⟩
   | _ => current
 
 def showFx (f : Fixes) : String :=
-  String.ofList ([f.clamp, f.stage, f.rc, f.zero].map fun b => if b then '1' else '0')
+  String.ofList ([f.clamp, f.stage, f.rc, f.zero, f.nullsrc, f.term].map fun b => if b then '1' else '0')
 
 def showOut (o : Out) : String :=
   let rv := match o.retval with | none => "ns" | some v => toString v
